@@ -60,6 +60,44 @@ def plain_subclass_probe(chk, extra):
     extra["plain_subclass_probe"] = {"cases": n, "failing": bad}
 
 
+def dnc_family_ctor_probe(chk, extra):
+    """implementation-only: whether a constructor copies an argument is decided by the class's own
+    do_not_copy declaration, whatever spec subclasses (with a different declaration for the
+    inherited attribute) have been bootstrapped; both directions, lazy and eager, parent and sibling"""
+    n = bad = 0
+    for eager in (False, True):
+        for parent_dnc, child_dnc in (((), ("xs", "ks")), (("xs", "ks"), ()), (("xs",), ("ks",))):
+            K, P, Q, S = c02_gen.dnc_family(parent_dnc, child_dnc, eager)
+            for first_use in ("before", "after"):
+                for cls, dnc in ((P, parent_dnc), (S, ()), (Q, child_dnc)):
+                    if first_use == "before" and cls is Q:
+                        continue
+                    xs, ks = [1, 2], [K("a")]
+                    obj = cls(xs=xs, ks=ks)
+                    n += 1
+                    ok = True
+                    for a, arg in (("xs", xs), ("ks", ks)):
+                        same = getattr(obj, a) is arg
+                        ok = ok and (same if a in dnc else not same)
+                    if "ks" not in dnc:
+                        ok = ok and obj.ks[0] is not ks[0]
+                    if ok:   # in-place mutation of the instance must not reach a copied argument
+                        obj.with_x(9, _inplace=True)
+                        ok = (xs == [1, 2, 9]) if "xs" in dnc else (xs == [1, 2])
+                    if not ok:
+                        bad += 1
+                        if bad <= 4:
+                            chk.violation("C08 violated by the implementation: constructor of %s (%s its spec subclass was first used) %s the argument for xs / ks although it declares do_not_copy=%s"
+                                          % (cls.__name__, first_use, "keeps" if obj.xs is xs or obj.ks is ks else "copies", list(dnc)),
+                                          {"kind": "dnc-family-ctor", "eager": eager, "parent_dnc": list(parent_dnc),
+                                           "child_dnc": list(child_dnc), "class": cls.__name__, "when": first_use,
+                                           "xs_same": obj.xs is xs, "ks_same": obj.ks is ks, "argument_after_mutation": repr(xs)},
+                                          sig={"kind": "dnc-family-ctor"})
+                if first_use == "before":
+                    Q(xs=[0], ks=[])
+    extra["dnc_family_ctor_probe"] = {"cases": n, "failing": bad}
+
+
 def targeted(chk, cases, bad, extra):
     n = 220 if chk.tier == "quick" else 4500
     n_ops = 6 if chk.tier == "quick" else 9
@@ -68,6 +106,7 @@ def targeted(chk, cases, bad, extra):
     same = sum(1 for c in mine for op, _ in c["ops"] if op[0] == "same")
     extra["reset_histories"]["same_assertions"] = same
     plain_subclass_probe(chk, extra)
+    dnc_family_ctor_probe(chk, extra)
     extra["rule"] = extra.get("rule", "") + "; reset histories = construct, in-place mutation, del / reset_<a> / reset (in place or copy), fresh instance of the same class, `same` assertion per reset attribute"
 
 
@@ -75,11 +114,14 @@ def main(tier, replay=None):
     if replay:
         import json
         r = json.load(open(replay))
-        if r.get("kind") == "plain-subclass":
+        probes = {"plain-subclass": (plain_subclass_probe, "plain_subclass_probe"),
+                  "dnc-family-ctor": (dnc_family_ctor_probe, "dnc_family_ctor_probe")}
+        if r.get("kind") in probes:
             from common import Check
+            fn, key = probes[r["kind"]]
             chk, extra = Check("C08", "quick"), {}
-            plain_subclass_probe(chk, extra)
-            print("replay:", "still failing" if extra["plain_subclass_probe"]["failing"] else "passes now", extra)
-            return 1 if extra["plain_subclass_probe"]["failing"] else 0
+            fn(chk, extra)
+            print("replay:", "still failing" if extra[key]["failing"] else "passes now", extra)
+            return 1 if extra[key]["failing"] else 0
         return inst_check.replay("C08", replay, 32 | 128 | 4)
     return inst_check.run("C08", tier, 32 | 128, GENS, 90, 2500, ASSUMPTIONS, post=targeted)
